@@ -17,6 +17,16 @@ CLAIMED = {
             "boundaries<->intervals/sort_labeled_intervals within the shapes is discharged by z3; witnesses replayed on the real code.",
             "Bounds: <=3 (quick) / <=4 (thorough) input intervals incl. gaps, every position of t_min/t_max (also None), <=3/<=5 sample points; "
             "compare-only code so real-arithmetic verdicts transfer to finite floats; adjust_events only for ranges overlapping the events.", "5 (C13)"),
+    "C11": ("The 12 real chord comparison functions run on fully symbolic encodings (every root/bitmap/bass/N/X satisfying the encoding "
+            "invariant) supplied by an encode_many stub; per path one z3 validity query per requirement (tri-valued result, -1 depends on the "
+            "reference only, self-comparison never 0, the ten implications, vocabularies, X ignored). Witnesses become real Harte labels and are replayed.",
+            "Unbounded over encodings for the 11 non-mirex rules; mirex with 2 (quick) / 4 (thorough) symbolic bitmap positions per label, windows swept. "
+            "Assumes the encoding invariant (established for the real encode() by C10) ; validate/encode_many stubbed.", "5 (C11)"),
+    "C18": ("Real multipitch accounting functions on symbolic integer count arrays (unbounded counts), real per-frame matcher on symbolic "
+            "frequencies, real resample_multipitch/metrics on symbolic time bases; z3 discharges E_tot=E_sub+E_miss+E_fa, non-negativity, "
+            "Acc<=min(P,R), tp<=tc<=min(nref,nest), nearest-frame resampling and empty frames outside the estimate's range on every path.",
+            "Bounds: <=3 (quick) / 5 (thorough) frames for accounting, 2x2 / 3x3 frequencies per frame, <=3 time stamps per side; interp1d(nearest) stub "
+            "cross-validated against SciPy per path; exact-midpoint ties accepted on either side.", "5 (C18)"),
 }
 
 NA_REASON = "check not built yet in this revision (planned; see DESIGN.md section 5)"
